@@ -46,7 +46,7 @@ import (
 
 func c19cases(tier string) int {
 	if tier == "thorough" {
-		return 300
+		return 200
 	}
 	return 48
 }
@@ -426,8 +426,8 @@ func init() {
 			"the statement is executed through the calls DataService.executeSQL makes, without the msgpack/numpy encoding of the response (C27-C29)",
 		},
 		Cases:        c19cases,
-		Batch:        6,
-		BatchTimeout: 30 * time.Minute,
+		Batch:        3,
+		BatchTimeout: 45 * time.Minute,
 		Run:          c19run,
 		Need:         []string{"statements", "rows_compared", "expected_proper_subset", "statements_with_literal_on_stored_value", "statements_main"},
 		MinDistinct:  20,
